@@ -334,6 +334,25 @@ let run_case (line : string) =
                 | RErr c -> add ("ERR " ^ rcause_s c ^ " ")
                 | RUnmodelled -> add "UNM ");
                p_str o; add (" LOG " ^ log_s lg)) results))
+   | ["reload"; hot; first; ops] ->
+     let hot = hot = "1" and healthy = ref (first = "1") and calls = ref 0 in
+     let build () = incr calls; if !healthy then BOk (nat_of_int !calls) else BFail in
+     let first_b = build () in
+     let ops = if ops = "." then "" else ops in
+     let mops = List.init (String.length ops) (fun i ->
+       match ops.[i] with
+       | '+' -> healthy := true; Reload (build ())
+       | '-' -> healthy := false; Reload (build ())
+       | c ->
+         let b = if hot then build () else BFail in
+         (match c with 'X' -> Render (true, b) | 'M' -> Render (false, b) | _ -> Get (true, b))) in
+     let rec int_of_nat = function O -> 0 | S k -> 1 + int_of_nat k in
+     let ans = new_render hot first_b mops in
+     add (String.concat " " (List.map (function
+       | AReloadOk -> "rok" | AReloadErr -> "rerr"
+       | AServed v -> "served" ^ string_of_int (int_of_nat v)
+       | ANotFound v -> "notfound" ^ string_of_int (int_of_nat v)
+       | ABuildErr -> "builderr" | ANoSet -> "noset") ans))
    | ["parse"; src] ->
      (match parse_code is_letter is_udigit (str_of_field src) with
       | Some e -> add "OK "; p_expr e
